@@ -94,7 +94,7 @@ def schedOracle (maxB : Nat) (blocking : Bool) (lateIds : List Nat) (ops : List 
     List String × Bool × Bool × Bool :=
   let rec go (allU : List Nat) (ops : List Op) (obs : List String) (prevE : List Nat) (ffPre : List (Nat × List Nat))
       (sdPre : Option (List Nat)) (doneFF : List Nat) (sdPres : List (List Nat)) (prevS : List Char)
-      (sdKinds : List Bool) (bad : List String) (f22 f41 f44 : Bool) :
+      (sdKinds : List Bool) (bad : List String) (f22 f41 f47 : Bool) :
       List String × Bool × Bool × Bool :=
     match ops, obs with
     | op :: ops', o :: obs' =>
@@ -133,13 +133,13 @@ def schedOracle (maxB : Nat) (blocking : Bool) (lateIds : List Nat) (ops : List 
       -- had ended (`st`); every other call waits in `Once.Do` and returns nil
       let bad := if (List.range sdField.length).any (fun i => sdField[i]? == some 'e' && !(i == 0 && sdKinds[i]? == some true))
         then "shutdown-error" :: bad else bad
-      -- known finding F44: the winning call returned its context's error; the calls that waited in `Once.Do` return nil
+      -- known finding F47: the winning call returned its context's error; the calls that waited in `Once.Do` return nil
       -- at once, while the shutdown goroutine is still draining — what their nil return fails to guarantee then (S3
-      -- return during an export, S4 exports afterwards, S5 delivery) is classified F44, as long as the exporter has not
+      -- return during an export, S4 exports afterwards, S5 delivery) is classified F47, as long as the exporter has not
       -- been shut down (afterwards everything holds again: `bsp_shutdown_drain_done`)
       let winnerErr := sdField[0]? == some 'e'
       let newlyOk := (List.range sdField.length).filter fun i => sdField[i]? == some 'o' && prevS[i]? != some 'o'
-      let (bad, f41, f44) := newlyOk.foldl (fun (acc : List String × Bool × Bool) i =>
+      let (bad, f41, f47) := newlyOk.foldl (fun (acc : List String × Bool × Bool) i =>
         let own := sdPres[i]?.getD []
         let fail (m : String) : List String × Bool × Bool :=
           if winnerErr && expSd == 0 then (acc.1, acc.2.1, true) else (m :: acc.1, acc.2.1, acc.2.2)
@@ -148,13 +148,13 @@ def schedOracle (maxB : Nat) (blocking : Bool) (lateIds : List Nat) (ops : List 
         else if !Spec.delivered blocking (own.filter (!lateIds.contains ·)) batches dropped then
           fail "S5:shutdown-own-pre"
         else if !Spec.delivered blocking own batches dropped then (acc.1, true, acc.2.2)   -- only late spans missing [F41]
-        else acc) (bad, f41, f44)
+        else acc) (bad, f41, f47)
       -- S4: after Shutdown returned the log must not grow: checked by comparing with the next observation
       let grows := match obs' with | o2 :: _ => (field o2 "L") != (field o "L") | [] => false
       let bad := if grows && (expSd ≥ 1 || (sdNow && !winnerErr)) then "S4" :: bad else bad
-      let f44 := f44 || (grows && sdNow && winnerErr && expSd == 0)
-      go allU ops' obs' ended ffPre sdPre doneFF sdPres sdField sdKinds bad f22 f41 f44
-    | _, _ => (bad, f22, f41, f44)
+      let f47 := f47 || (grows && sdNow && winnerErr && expSd == 0)
+      go allU ops' obs' ended ffPre sdPre doneFF sdPres sdField sdKinds bad f22 f41 f47
+    | _, _ => (bad, f22, f41, f47)
   go (scriptUnsampled ops) ops obs [] [] none [] [] [] [] [] false false false
 
 def parseEv (t : String) : Option Spec.Ev :=
@@ -193,9 +193,9 @@ def stepLine (_ : Unit) (toks : List String) : Unit × Option Verdict :=
       let final := (runSchedP vv ({}, init cap maxB blocking) ops).2.2
       -- the late spans of the model's run: what sits in the queue of the exited worker (`LateEnd_applies`)
       let lateIds := if LateEnd_applies final then spansOf final.queue else []
-      let (bad, f22, f41, f44) := schedOracle maxB blocking lateIds ops obs
-      -- F44 is accepted only when the winning call's context has ended in the model's run (`ShutdownTimedOut_applies`)
-      let f44model := ShutdownTimedOut_applies final
+      let (bad, f22, f41, f47) := schedOracle maxB blocking lateIds ops obs
+      -- F47 is accepted only when the winning call's context has ended in the model's run (`ShutdownTimedOut_applies`)
+      let f47model := ShutdownTimedOut_applies final
       -- F22 is accepted only when the model itself took one of ForceFlush's early exits (`F22_applies`)
       let f22model := final.ffs.any (fun f => f.ph == .retEarly)
       -- F41 likewise only when the late-span race has happened in the model (`LateEnd_applies`, History.lean)
@@ -213,7 +213,7 @@ def stepLine (_ : Unit) (toks : List String) : Unit × Option Verdict :=
         stuckFFs.all (fun fid => lastFF.lookup fid == some "p") && stuckEnds.all (fun id => !lastE.contains id)
       let spec := if !bad.isEmpty then "FAIL"
         else if f42 then "KNOWN:F42"
-        else if f44 && f44model then "KNOWN:F44" else if f44 then "FAIL:F44-not-in-model"
+        else if f47 && f47model then "KNOWN:F47" else if f47 then "FAIL:F47-not-in-model"
         else if f41 && f41model then "KNOWN:F41" else if f41 then "FAIL:F41-not-in-model"
         else if f22 && f22model then "KNOWN:F22" else if f22 then "FAIL" else "ok"
       let br := (if final.droppedIds.isEmpty then [] else ["drop"]) ++
@@ -224,7 +224,7 @@ def stepLine (_ : Unit) (toks : List String) : Unit × Option Verdict :=
         (if final.sdRetOk then ["sd-ok"] else []) ++
         (if final.sds.isEmpty then [] else ["sd-multi"]) ++
         (if final.sds.any (·.ret) then ["sd-late-ok"] else []) ++
-        (if final.sdRetErr then ["sd-timeout"] else []) ++ (if f44 then ["sd-timeout-late-nil"] else []) ++
+        (if final.sdRetErr then ["sd-timeout"] else []) ++ (if f47 then ["sd-timeout-late-nil"] else []) ++
         (if final.unsampled.isEmpty then [] else ["unsampled"]) ++
         (if f41model then ["late-end"] else []) ++
         (if stuckFFs.isEmpty then [] else ["stuck-ff"]) ++ (if stuckEnds.isEmpty then [] else ["stuck-end"]) ++
@@ -249,13 +249,19 @@ def stepLine (_ : Unit) (toks : List String) : Unit × Option Verdict :=
       -- else the failure "hang"
       let (hbad, f42) := Spec.histHangs blocking evs
       let bad := bad ++ hbad
-      let spec := if !bad.isEmpty then "FAIL" else if f42 then "KNOWN:F42" else if f41 then "KNOWN:F41"
+      -- F47: a Shutdown call returned nil after another one had returned an error (the winning call's context ended) and
+      -- before the exporter's Shutdown ended (`hist_f47_only_after_error_return`, `bsp_model_history_f47_only_timeout`)
+      let f47 := Spec.histF47 blocking dropped evs
+      let sdErr := evs.any (fun | .sdReturned false => true | _ => false)
+      let spec := if !bad.isEmpty then "FAIL" else if f42 then "KNOWN:F42" else if f47 then "KNOWN:F47"
+        else if f41 then "KNOWN:F41"
         else if f22 then "KNOWN:F22" else "ok"
       let nExp := (evs.filter fun | .exportStart _ => true | _ => false).length
       let br := (if dropped > 0 then ["drop"] else []) ++ (if nExp ≥ 2 then ["multi-export"] else []) ++
         (if evs.any (fun | .ffReturned _ true => true | _ => false) then ["ff-ok"] else []) ++
         (if evs.any (fun | .sdReturned true => true | _ => false) then ["sd-ok"] else []) ++
-        (if f22 then ["f22"] else []) ++ (if f41 then ["f41"] else []) ++ (if f42 then ["f42"] else [])
+        (if f22 then ["f22"] else []) ++ (if f41 then ["f41"] else []) ++ (if f42 then ["f42"] else []) ++
+        (if sdErr then ["sd-timeout"] else []) ++ (if f47 then ["f47"] else [])
       ((), some { agree := true, spec := spec ++ (if bad.isEmpty then "" else ":" ++ ",".intercalate bad),
                   nontrivial := nExp ≥ 1, branches := if br.isEmpty then "-" else ",".intercalate br,
                   model := "-" })
